@@ -2,7 +2,13 @@
 PROPERTY = "C12"
 LEVEL = "proof"
 FUNCTIONS = ['uxarray.remap.nearest_neighbor._nearest_neighbor@rank1',
-    'uxarray.remap.nearest_neighbor._nearest_neighbor@rank2']
+    'uxarray.remap.nearest_neighbor._nearest_neighbor@rank2',
+    'uxarray.remap.utils._remap_grid_parse@spherical,nodes',
+    'uxarray.remap.utils._remap_grid_parse@spherical,face centers',
+    'uxarray.remap.utils._remap_grid_parse@spherical,edge centers',
+    'uxarray.remap.utils._remap_grid_parse@cartesian,nodes',
+    'uxarray.remap.utils._remap_grid_parse@cartesian,face centers',
+    'uxarray.remap.utils._remap_grid_parse@cartesian,edge centers']
 STANDINS = ["remapping", "remap_history"]
 ASSUMPTIONS = []
 EXPLANATION = ""
